@@ -28,6 +28,7 @@ RULE = (
     "history touches >= 3 distinct internal types, or a command was parked for a sleeping node; distinct = distinct case JSON."
     ' Round 5: cases run under generated time zones and compare the time replies of both versions.'
     ' Round 7: fractional report payloads; sequences of the same report (growing, shrinking, repeating) with commands parked in between.'
+    ' Round 8: req / internal application sends.'
 )
 ASSUMPTIONS = [
     "gateway.protocol_version = v (public setter) pins each gateway",
